@@ -159,7 +159,7 @@ void ares_gethostbyaddr_nolock(ares_channel_t *channel, const void *addr, int ad
   (void)addr; (void)addrlen; (void)family;
   VP_ASSERT(channel == &LH_ch, "work on the channel under test");
   LH_WORKER("ares_gethostbyaddr_nolock");
-  if (vp_bool()) callback(arg, (int)LH_any_status(), 0, NULL);
+  if (vp_bool()) callback(arg, (int)vp_range(1, 24), 0, NULL); /* immediate failure (no host entry to hand over) */
 }
 #ifdef TU_getnameinfo
 char *lookup_service(unsigned short port, unsigned int flags, char *buf, size_t buflen)
